@@ -3,8 +3,9 @@
    restriction registers are folds over the same publications, none of them
    can change the base world. (partial: hash iteration order of CPython sets is
    explored through the hooks, not modelled.) *)
-From Coq Require Import List.
-From EosV Require Import model.World model.Ops proofs.Misc_p.
+From Coq Require Import List ZArith QArith Permutation.
+From EosV Require Import gen.T_eos model.World model.Calc model.Ops proofs.Misc_p proofs.Perm_p.
+Import ListNotations.
 
 Theorem C08_independent_subscribers :
   forall (M A B : Type) (f : A -> M -> A) (g : B -> M -> B) (choice : M -> bool) msgs s,
@@ -17,10 +18,49 @@ Theorem C08_no_subscriber_reaches_the_world : forall x x' o,
   s_w (fst (step x o)) = s_w (fst (step x' o)) /\ snd (step_ev x o) = snd (step_ev x' o).
 Proof. exact world_independent_of_derived. Qed.
 
+(* hash iteration order: eos gathers the modifications of an attribute from sets and dicts; the value
+   computed from them is the same for EVERY order in which they can be gathered (all operators, stacking
+   penalty chains, minimum / maximum aggregation groups with their tie rules). Exact arithmetic: the
+   model computes in Q where eos computes in binary floating point. The premise says the gathered values
+   are in lowest terms, which is how [read_attr] stores every one of them ([Qred]). *)
+Theorem C08_value_independent_of_gathering_order : forall pen hig base mods mods',
+  Permutation mods mods' -> Forall (fun g => Qred (g_val g) = g_val g) mods ->
+  (combine_mods pen hig base mods == combine_mods pen hig base mods')%Q.
+Proof. exact combine_mods_perm. Qed.
+Theorem C08_stored_value_independent_of_gathering_order : forall pen hig base mods mods',
+  Permutation mods mods' -> Forall (fun g => Qred (g_val g) = g_val g) mods ->
+  Qred (combine_mods pen hig base mods) = Qred (combine_mods pen hig base mods').
+Proof. exact combine_mods_perm_red. Qed.
+Theorem C08_any_gathered_list : forall pen hig base mods mods',
+  Permutation mods mods' ->
+  (combine_mods pen hig base (map normg mods) == combine_mods pen hig base (map normg mods'))%Q.
+Proof. exact combine_mods_perm_norm. Qed.
+
+(* non-vacuity: five modifications (two penalised multiplications, a maximum group with a tie between a
+   penalised and a non-penalised member, an addition) change the base value, and do so identically when
+   gathered in the opposite order *)
+Definition c08_mods : list gmod :=
+  [mkGmod ModOperator_post_mul (1#2) true ModAggregateMode_stack None;
+   mkGmod ModOperator_post_mul (1#4) true ModAggregateMode_stack None;
+   mkGmod ModOperator_post_percent (1#5) true ModAggregateMode_maximum (Some 7%Z);
+   mkGmod ModOperator_post_percent (1#5) false ModAggregateMode_maximum (Some 7%Z);
+   mkGmod ModOperator_mod_add (3#1) false ModAggregateMode_stack None].
+Example C08_order_nonvacuous :
+  let pen := [1; 1#2; 1#16]%Q in
+  Forall (fun g => Qred (g_val g) = g_val g) c08_mods /\
+  Qred (combine_mods pen true 100 c08_mods) = Qred (combine_mods pen true 100 (rev c08_mods)) /\
+  ~ (combine_mods pen true 100 c08_mods == 100)%Q.
+Proof.
+  cbv zeta. split; [repeat constructor|]. split; [vm_compute; reflexivity|]. vm_compute. discriminate.
+Qed.
+
 Example C08_nonvacuous :
   fold_left (fun s m => if Nat.even m then deliver_fg plus max s m else deliver_gf plus max s m)
             (1 :: 2 :: 3 :: nil)%nat (0, 0)%nat = (6, 3)%nat.
 Proof. reflexivity. Qed.
 
+Print Assumptions C08_value_independent_of_gathering_order.
+Print Assumptions C08_stored_value_independent_of_gathering_order.
+Print Assumptions C08_any_gathered_list.
 Print Assumptions C08_independent_subscribers.
 Print Assumptions C08_no_subscriber_reaches_the_world.
